@@ -87,6 +87,16 @@ Definition working_dir (root : str) (i : ident) : str := path_str root (ipath i)
 (* COND_DEPS: DEPS_ENV_PATH_SEPARATOR.join(map(str, deps_output_paths)) *)
 Definition cond_deps (paths : list str) : str := join cfg_DEPS_ENV_PATH_SEPARATOR paths.
 
+(* TaskType.get_deps_output_paths: [outs] = what get_output_path(ctx) gives for each declared dependency, in the order
+   of `deps` (None: a run_experiment dependency without any recorded version); the loop appends every path that is not
+   None -- the per-dependency decision is the one regenerated from the sources (Gen.Generated.gen_deps_paths_step) *)
+Definition deps_output_paths (outs : list (option str)) : list str :=
+  fold_left (fun acc o =>
+               match gen_deps_paths_step (match o with None => true | Some _ => false end), o with
+               | 1, Some p => acc ++ [p]
+               | _, _ => acc
+               end) outs [].
+
 (* conductor.lib.path.get_deps_paths (after the repair of D3), get_output_path, in_output_dir *)
 Definition sep_char : N := match cfg_DEPS_ENV_PATH_SEPARATOR with [c] => c | _ => 0 end.
 Definition lib_get_deps_paths (env_value : str) : list str :=
